@@ -37,9 +37,11 @@ static void gen(Plan* p, Rng* r, int tier, long idx) {
     int n = (int)rng_range(r, 4, tier ? 60 : 30), i; (void)idx;
     for (i = 0; i < n; i++) {
         int x = (int)rng_below(r, 100);
-        if (x < 62) plan_add(p, "set", 4, (int64_t)rng_below(r, 3), (int64_t)rng_below(r, 64), (int64_t)rng_below(r, 11), (int64_t)(rng_u64(r) >> 33));   /* target(0 cctx,1 params,2 dctx), param idx, value code, random */
-        else if (x < 72) plan_add(p, "reset", 2, (int64_t)rng_below(r, 3), (int64_t)rng_range(r, 1, 3));
-        else if (x < 80) plan_add(p, "begin", 1, (int64_t)rng_below(r, 3));   /* 0 compression frame (continue), 1 decompression frame, 2 compression frame left with output pending (flush into 16 bytes: the stream sits in its flush stage) */
+        if (x < 58) plan_add(p, "set", 4, (int64_t)rng_below(r, 3), (int64_t)rng_below(r, 64), (int64_t)rng_below(r, 11), (int64_t)(rng_u64(r) >> 33));   /* target(0 cctx,1 params,2 dctx), param idx, value code, random */
+        else if (x < 70) plan_add(p, "reset", 2, (int64_t)rng_below(r, 3), (int64_t)rng_range(r, 1, 3));
+        else if (x < 74) plan_add(p, "pledge", 1, (int64_t)rng_below(r, 5));   /* announce the size of the next frame: exact, +1, half, 0, unknown */
+        else if (x < 78) plan_add(p, "frame2", 0);                             /* a frame streamed in two calls: the only place where a pledge in force is observable */
+        else if (x < 82) plan_add(p, "begin", 1, (int64_t)rng_below(r, 3));   /* 0 compression frame (continue), 1 decompression frame, 2 compression frame left with output pending (flush into 16 bytes: the stream sits in its flush stage) */
         else if (x < 87) plan_add(p, "end", 1, (int64_t)rng_below(r, 2));
         else if (x < 91) plan_add(p, "err", 1, (int64_t)rng_below(r, 2));
         else if (x < 95) plan_add(p, "simple", 0);
@@ -72,6 +74,7 @@ static int frame_has_fcs(const uint8_t* f, size_t n) { FwFrame fw; int r = -1; i
 static void exec(const Plan* p) {
     ZSTD_CCtx* c = ZSTD_createCCtx(); ZSTD_CCtx_params* cp = ZSTD_createCCtxParams(); ZSTD_DCtx* d = ZSTD_createDCtx(); Snap fresh, before, after; int i; Sess s; uint8_t* dst; size_t cap; int cmid = 0, dmid = 0; uint8_t* zf; size_t zfn; size_t dpos = 0;
     sess_init(&s); sess_make_input(&s, p); cap = ZSTD_compressBound(s.in_size) + 64; dst = (uint8_t*)malloc(cap); zf = (uint8_t*)malloc(cap); zfn = ZSTD_compress(zf, cap, s.in, s.in_size, 1);
+    long long pledged = -1;   /* model of the announced size of the next frame: -1 unknown (the default of any new frame) */
     snap(c, cp, d, &fresh); inv_bounds(&fresh, "creation");
     for (i = 0; i < p->nops; i++) {
         const PlanOp* o = &p->ops[i]; char what[96];
@@ -101,7 +104,7 @@ static void exec(const Plan* p) {
         } else if (!strcmp(o->kind, "reset")) {
             int tgt = (int)o->a[0] % 3, kind = (int)o->a[1]; size_t r = 0; if (kind < 1 || kind > 3) kind = 1;
             snprintf(what, sizeof what, "reset(target %d, directive %d)", tgt, kind);
-            if (tgt == 0) { r = ZSTD_CCtx_reset(c, (ZSTD_ResetDirective)kind); if (!ZSTD_isError(r) && kind != 2) cmid = 0; }
+            if (tgt == 0) { r = ZSTD_CCtx_reset(c, (ZSTD_ResetDirective)kind); if (!ZSTD_isError(r) && kind != 2) { cmid = 0; pledged = -1; /* ready to start a new frame; unknown is the default of any new frame */ } }
             else if (tgt == 1) { r = ZSTD_CCtxParams_reset(cp); kind = 2; }
             else { r = ZSTD_DCtx_reset(d, (ZSTD_ResetDirective)kind); if (!ZSTD_isError(r) && kind != 2) { dmid = 0; dpos = 0; } }
             snap(c, cp, d, &after);
@@ -111,8 +114,26 @@ static void exec(const Plan* p) {
                 else for (k = 0; k < (tgt == 2 ? ND : NC); k++) { int now = tgt == 0 ? after.c[k] : tgt == 1 ? after.cp[k] : after.d[k], fr = tgt == 0 ? fresh.c[k] : tgt == 1 ? fresh.cp[k] : fresh.d[k];
                     if (now != fr) sim_violation("reset_not_default", "%s: %s reads %d, a fresh object reads %d", what, tgt == 2 ? k_d[k].name : k_c[k].name, now, fr); }
             }
+        } else if (!strcmp(o->kind, "pledge")) {
+            if (!cmid) { long long const v = (int)o->a[0] == 0 ? (long long)s.in_size : (int)o->a[0] == 1 ? (long long)s.in_size + 1 : (int)o->a[0] == 2 ? (long long)(s.in_size / 2) : (int)o->a[0] == 3 ? 0 : -1;
+                size_t const r = ZSTD_CCtx_setPledgedSrcSize(c, v < 0 ? ZSTD_CONTENTSIZE_UNKNOWN : (unsigned long long)v);
+                if (ZSTD_isError(r)) sim_violation("pledge_refused", "ZSTD_CCtx_setPledgedSrcSize(%lld) refused between frames: %s", v, ZSTD_getErrorName(r));
+                pledged = v; snap(c, cp, d, &after); inv_unchanged(&before, &after, "announcing a source size (parameters are sticky)"); }
+        } else if (!strcmp(o->kind, "frame2")) {
+            if (!cmid && before.c[27] == 0 && before.c[28] == 0) { ZSTD_inBuffer in; ZSTD_outBuffer out; size_t r; long long const was = pledged;
+                in.src = s.in; in.size = s.in_size / 2 + 1; in.pos = 0; out.dst = dst; out.size = cap; out.pos = 0;
+                r = ZSTD_compressStream2(c, &out, &in, ZSTD_e_continue);
+                if (!ZSTD_isError(r)) { in.size = s.in_size; do { r = ZSTD_compressStream2(c, &out, &in, ZSTD_e_end); } while (!ZSTD_isError(r) && r != 0); }
+                pledged = -1;   /* zstd.h: only valid once, for the next frame; discarded at the end of the frame */
+                if (ZSTD_isError(r)) { ZSTD_CCtx_reset(c, ZSTD_reset_session_only);
+                    if ((was < 0 || was == (long long)s.in_size) && ZSTD_getErrorCode(r) == ZSTD_error_srcSize_wrong) sim_violation("stale_pledge", "a %zu-byte frame streamed in two calls fails with srcSize_wrong although %s", s.in_size, was < 0 ? "no size is announced for it (an earlier announcement was consumed by a frame or cancelled by a session reset)" : "exactly that size was announced");
+                    sim_probe("c16.frame_failed_param_combination"); }
+                else { if (was >= 0 && was != (long long)s.in_size && before.c[17] == 0) sim_violation("pledge_not_enforced", "%lld bytes announced, a %zu-byte frame completes without error", was, s.in_size);
+                    if (was == (long long)s.in_size && before.c[21] == 0 && before.c[14] != 0 && before.c[17] == 0) { FwFrame fw; if (fw_parse(dst, out.pos, 0, &fw) == 0) { if (!fw.has_fcs || fw.fcs != (uint64_t)s.in_size) sim_violation("pledge_not_written", "announced size %zu is not in the frame header (has_fcs %d)", s.in_size, fw.has_fcs); fw_free(&fw); } }
+                    sim_probe("c16.two_call_frames"); }
+                snap(c, cp, d, &after); inv_unchanged(&before, &after, "a frame streamed in two calls (parameters are sticky)"); }
         } else if (!strcmp(o->kind, "begin")) {
-            if (((int)o->a[0] == 0 || (int)o->a[0] == 2) && !cmid && before.c[27] == 0 /* with stableInBuffer the first small call does not start the frame yet */) { ZSTD_inBuffer in; ZSTD_outBuffer out; size_t r; int const pend = (int)o->a[0] == 2 && before.c[28] == 0 /* not with stableOutBuffer */; in.src = s.in; in.size = s.in_size / 2 + 1; in.pos = 0; out.dst = dst; out.size = pend ? (cap < 16 ? cap : 16) : cap; out.pos = 0; r = ZSTD_compressStream2(c, &out, &in, pend ? ZSTD_e_flush : ZSTD_e_continue); if (!ZSTD_isError(r)) { cmid = 1; if (pend && r > 0) sim_probe("c16.frame_with_output_pending"); } else ZSTD_CCtx_reset(c, ZSTD_reset_session_only); }
+            if (((int)o->a[0] == 0 || (int)o->a[0] == 2) && !cmid && before.c[27] == 0 /* with stableInBuffer the first small call does not start the frame yet */) { ZSTD_inBuffer in; ZSTD_outBuffer out; size_t r; int const pend = (int)o->a[0] == 2 && before.c[28] == 0 /* not with stableOutBuffer */; in.src = s.in; in.size = s.in_size / 2 + 1; in.pos = 0; out.dst = dst; out.size = pend ? (cap < 16 ? cap : 16) : cap; out.pos = 0; r = ZSTD_compressStream2(c, &out, &in, pend ? ZSTD_e_flush : ZSTD_e_continue); if (!ZSTD_isError(r)) { cmid = 1; if (pend && r > 0) sim_probe("c16.frame_with_output_pending"); } else { ZSTD_CCtx_reset(c, ZSTD_reset_session_only); pledged = -1; } }
             else if ((int)o->a[0] == 1 && !dmid && zfn > 8) { ZSTD_inBuffer in; ZSTD_outBuffer out; size_t r; uint8_t tmp[64]; in.src = zf; in.size = 7; in.pos = 0; out.dst = tmp; out.size = sizeof tmp; out.pos = 0; r = ZSTD_decompressStream(d, &out, &in); if (!ZSTD_isError(r)) { dmid = 1; dpos = in.pos; } else ZSTD_DCtx_reset(d, ZSTD_reset_session_only); }
             snap(c, cp, d, &after); inv_unchanged(&before, &after, "starting a frame (parameters are sticky)");
         } else if (!strcmp(o->kind, "end")) {
@@ -121,7 +142,7 @@ static void exec(const Plan* p) {
                 in.src = s.in; in.size = s.in_size; in.pos = was_mid ? s.in_size / 2 + 1 : 0; out.dst = dst; out.size = cap; out.pos = 0;
                 if (was_mid) { ZSTD_CCtx_reset(c, ZSTD_reset_session_only); in.pos = 0; }
                 do { r = ZSTD_compressStream2(c, &out, &in, ZSTD_e_end); } while (!ZSTD_isError(r) && r != 0);
-                cmid = 0;
+                cmid = 0; pledged = -1;
                 if (ZSTD_isError(r)) { ZSTD_CCtx_reset(c, ZSTD_reset_session_only); sim_probe("c16.frame_failed_param_combination"); }
                 else if (before.c[21] == 0 /* zstd1 format */ && before.c[28] == 0 /* stableOut irrelevant */) {
                     int const ck = frame_has_checksum(dst, out.pos), fcs = frame_has_fcs(dst, out.pos);
@@ -132,11 +153,11 @@ static void exec(const Plan* p) {
                 snap(c, cp, d, &after); inv_unchanged(&before, &after, "a completed frame (parameters are sticky)");
             } else if (dmid) { ZSTD_DCtx_reset(d, ZSTD_reset_session_only); dmid = 0; snap(c, cp, d, &after); inv_unchanged(&before, &after, "ending a decode session"); }
         } else if (!strcmp(o->kind, "err")) {
-            size_t r; if ((int)o->a[0] == 0 && !cmid) { r = ZSTD_compress2(c, dst, 3, s.in, s.in_size); if (ZSTD_isError(r)) sim_probe("c16.provoked_errors"); ZSTD_CCtx_reset(c, ZSTD_reset_session_only); }
+            size_t r; if ((int)o->a[0] == 0 && !cmid) { r = ZSTD_compress2(c, dst, 3, s.in, s.in_size); if (ZSTD_isError(r)) sim_probe("c16.provoked_errors"); ZSTD_CCtx_reset(c, ZSTD_reset_session_only); pledged = -1; }
             else if (!dmid) { uint8_t tmp[8]; r = ZSTD_decompressDCtx(d, tmp, sizeof tmp, zf, zfn > 5 ? zfn - 3 : zfn); (void)r; ZSTD_DCtx_reset(d, ZSTD_reset_session_only); }
             snap(c, cp, d, &after); inv_unchanged(&before, &after, "a failed operation followed by a session reset");
         } else if (!strcmp(o->kind, "simple")) {
-            if (!cmid) { size_t r = ZSTD_compressCCtx(c, dst, cap, s.in, s.in_size, 1);
+            if (!cmid) { size_t r = ZSTD_compressCCtx(c, dst, cap, s.in, s.in_size, 1); pledged = -1;
                 if (!ZSTD_isError(r)) { int const ck = frame_has_checksum(dst, r); if (ck == 1) sim_violation("simple_api_used_advanced_setting", "ZSTD_compressCCtx emitted a checksum: it must ignore advanced parameters (checksumFlag reads %d)", before.c[15]); if (!ZSTD_isFrame(dst, r)) sim_violation("simple_api_used_advanced_setting", "ZSTD_compressCCtx emitted a magicless frame (format reads %d)", before.c[21]); sim_probe("c16.simple_api_calls"); }
                 snap(c, cp, d, &after); inv_unchanged(&before, &after, "a simple-API call (sticky parameters must survive it)"); }
         } else if (!strcmp(o->kind, "applyp")) {
